@@ -26,7 +26,7 @@ def jobs(tier):
   return [
       Job("lineset", M, "h_lineset", dict(C03_LS_OPS=3, C03_MAXL=4), shards=97, timeout=t),
       Job("director-history", M, "h_director",
-          dict(C03_NPRIOR=1, C03_MAXL=4, C03_MAXFUN=0, C03_PRIOR_CALL=0, C03_EXTRA_CALL=1, C03_QOPS=1, C03_NDNAMES=3, C03_PRIOR_KINDS=4),
+          dict(C03_NPRIOR=1, C03_MAXL=4, C03_MAXFUN=0, C03_PRIOR_CALL=0, C03_EXTRA_CALL=0, C03_QOPS=1, C03_NDNAMES=2, C03_PRIOR_KINDS=4),
           shards=509, timeout=t),
       Job("director-functions", M, "h_director",
           dict(C03_NPRIOR=0, C03_MAXL=4, C03_MAXFUN=2, C03_QOPS=0, C03_NDNAMES=3), shards=251, timeout=t),
